@@ -366,6 +366,21 @@ theorem tie_cgWaitReturns : cgWaitReturns =
     ["cg.err",
     "cg.ctx.Err()"] := rfl
 
+/-- contextGroup.Wait is a barrier: it waits (unconditionally, first thing) for EVERY func started with Go — also
+after the context was cancelled — before it looks at the error. The model's save (`flushFilesK`/`marshal9`) lets every
+started Keep write of the save finish (commit or fail) before the save returns; sync-mode commitBlock replaces segments
+without re-validation because of exactly this. -/
+theorem tie_cgWaitSkeleton : cgWaitSkeleton =
+    ["call cg.wg.Wait",
+    "call cg.mtx.Lock",
+    "defer",
+    "call cg.mtx.Unlock",
+    "if cg.err != nil {",
+    "return",
+    "}",
+    "call cg.ctx.Err",
+    "return"] := rfl
+
 /-- throttle = buffered channel -/
 theorem tie_throttleAcquireText : throttleAcquireText =
     "{ t.c <- struct{}{} }" := rfl
